@@ -92,8 +92,10 @@ class World:
         self.parts = {}            # name -> idx
         self.subs = {}             # subscriber name -> participant name
         self.readers = {}          # name -> dict(part, idx, ent, rel, tl, created_at(op index), alive, born_sn)
-        self.wq = None             # writer qos dict
-        self.writes = []           # (op index, id, value, ok)
+        self.wq = None             # qos dict of the writer named `w`
+        self.pubs = {}             # publisher name -> participant name
+        self.writers = {}          # name -> dict(part, idx, ent, q, created_at, wid)
+        self.writes = []           # (op index, id, value, ok, writer name)
         self.now = 0
         self.held = {}             # id -> rec
         self.broken = None
@@ -114,8 +116,16 @@ class World:
                 self.parts[t[1]] = len(self.parts)
             elif op == "subscriber":
                 self.subs[t[1]] = t[2]
+            elif op == "publisher":
+                self.pubs[t[1]] = t[2]
             elif op == "writer" and o.startswith("ok"):
-                self.wq = dict(x.split("=", 1) for x in t[4:] if "=" in x)
+                q = dict(x.split("=", 1) for x in t[4:] if "=" in x)
+                if t[1] == "w" or self.wq is None:
+                    self.wq = q
+                h = o.split()[1] if len(o.split()) > 1 else "0" * 32
+                pp = self.pubs.get(t[2], "P1")
+                self.writers[t[1]] = {"part": pp, "idx": self.parts.get(pp, 0), "ent": h[24:], "q": q, "created_at": i,
+                                      "wid": len(self.writers) + 1}
             elif op == "reader" and o.startswith("ok "):
                 h = o.split()[1]
                 q = dict(x.split("=", 1) for x in t[4:] if "=" in x)
@@ -124,7 +134,7 @@ class World:
                                       "tl": q.get("durability", "volatile") == "transient_local", "created_at": i, "alive": True,
                                       "born_sn": sum(1 for w in self.writes if w[3]), "handle": h}
             elif op == "write":
-                self.writes.append((i, int(t[2]), t[3], o == "ok"))
+                self.writes.append((i, int(t[2]), t[3], o == "ok", t[1]))
             elif op == "now" and o.startswith("ok "):
                 self.now = int(o.split()[1])
             elif op == "delete" and t[1] in self.readers:
@@ -158,10 +168,10 @@ class World:
                 pending_handled = []
             self.steps.append(cur)
 
-    def sample_of_sn(self):
+    def sample_of_sn(self, wname="w"):
         m, sn = {}, 0
-        for (_, k, v, ok) in self.writes:
-            if ok:
+        for (_, k, v, ok, wn) in self.writes:
+            if ok and wn == wname:
                 sn += 1
                 m[sn] = f"{k}:{v}"
         return m
@@ -199,7 +209,7 @@ def build_model_lines(w):
         if op == "reader" and o.startswith("ok ") and t[1] in w.readers:
             r = w.readers[t[1]]
             emit(f"wmatch {rid_of(r)} {'rel' if r['rel'] else 'be'}")
-        if op == "write" and o == "ok":
+        if op == "write" and o == "ok" and t[1] == "w":
             emit("wwrite")
         if op == "wait-ack":
             waitid += 1
@@ -226,7 +236,9 @@ def build_model_lines(w):
                                 emit(f"wunmatch {rid_of(r)}", ("ack-event", st["i"], tt))
                                 break
     emit("wstate")
-    # ---- reader automata
+    # ---- reader automata (any number of matched writers)
+    def compatible(r, wr):
+        return (not r["tl"]) or wr["q"].get("durability") == "transient_local"
     for n in order:
         r = modelled[n]
         emit(f"rreset {'rel' if r['rel'] else 'be'} {'tl' if r['tl'] else 'vol'}")
@@ -236,26 +248,33 @@ def build_model_lines(w):
             if st["i"] < r["created_at"]:
                 continue
             if st["i"] == r["created_at"]:
-                emit("rmatch")
+                for wn, wr in w.writers.items():
+                    if wr["created_at"] < r["created_at"] and compatible(r, wr):
+                        emit(f"rmatch {wr['wid']}")
+            if t[0] == "writer" and t[1] in w.writers and w.writers[t[1]]["created_at"] == st["i"] and st["i"] > r["created_at"] \
+                    and compatible(r, w.writers[t[1]]) and r.get("deleted_at", 1 << 30) > st["i"]:
+                emit(f"rmatch {w.writers[t[1]]['wid']}")
             if t[0] == "wait-hist" and t[1] == n:
                 hid += 1
                 emit(f"rwait {hid}", ("wait-hist", st["i"], hid, st["t0"], int(t[2]), n))
             if not r["alive"] and st["i"] > r.get("deleted_at", 1 << 30):
                 continue
             for rec in st["handled"]:
-                if user_port(r["idx"]) not in rec["to"] or rec["from"] != 0:
+                if user_port(r["idx"]) not in rec["to"]:
                     continue
                 tt = st["t0"] if rec.get("released") else rec["t"]
                 for kind, f in rec["subs"]:
-                    if f.get("w") != WENT:
+                    wr = next((x for x in w.writers.values() if x["idx"] == rec["from"] and x["ent"] == f.get("w")), None)
+                    if wr is None or not compatible(r, wr):
                         continue
+                    wid = wr["wid"]
                     if kind == "DATA":
-                        emit(f"rdata {f['sn']}", ("r-event", st["i"], tt, n))
+                        emit(f"rdata {wid} {f['sn']}", ("r-event", st["i"], tt, n, wid))
                     elif kind == "GAP":
-                        s = ",".join(str(x) for x in f.get("set", [])) or "-"
-                        emit(f"rgap {f['start']} {f['base']} {s}", ("r-event", st["i"], tt, n))
+                        ss = ",".join(str(x) for x in f.get("set", [])) or "-"
+                        emit(f"rgap {wid} {f['start']} {f['base']} {ss}", ("r-event", st["i"], tt, n, wid))
                     elif kind == "HEARTBEAT":
-                        emit(f"rhb {f['first']} {f['last']} {f['count']} {'F' if f.get('final') == '1' else 'f'} l", ("r-event", st["i"], tt, n))
+                        emit(f"rhb {wid} {f['first']} {f['last']} {f['count']} {'F' if f.get('final') == '1' else 'f'} l", ("r-event", st["i"], tt, n, wid))
             if t[0] == "take" and t[1] == n:
                 emit("rstate", ("take", st["i"], n))
         emit("rstate", ("final", None, n))
@@ -291,12 +310,12 @@ def predict(w, lines, plan, mo):
             waits[("h", name, hid)] = {"i": i, "t0": t0, "n": n, "done": a not in ("-",)}
             pred[i] = ("err:IllegalOperation", t0) if a == "illegal" else (("ok", t0) if a != "-" else None)
         elif k == "r-event":
-            _, i, tt, name = what
+            _, i, tt, name, wid = what
             parts = o.split(" | ")
             if len(parts) == 3:
                 a = parts[0].split()[1]
                 if parts[2] != "-":
-                    acks.setdefault(name, []).extend(x for x in parts[2].split("+") if x.startswith("an:"))
+                    acks.setdefault(name, []).extend(f"{wid}|{x}" for x in parts[2].split("+") if x.startswith("an:"))
                 for x in ([] if a in ("-", "illegal") else a.split(",")):
                     wt = waits.get(("h", name, int(x)))
                     if wt and not wt["done"]:
@@ -306,12 +325,16 @@ def predict(w, lines, plan, mo):
         elif k == "take":
             _, i, name = what
             cache = o.split("cache=")[1] if "cache=" in o else "-"
-            sns = [] if cache == "-" else [int(x) for x in cache.split(",")]
-            prev = cache_prev.get(name, [])
-            new = sns[len(prev):]
-            cache_prev[name] = sns
-            m = w.sample_of_sn()
-            pred[i] = ("take", sorted(m.get(s, f"?{s}") for s in new))
+            got = []
+            for part in ([] if cache == "-" else cache.split(";")):
+                wid, lst = part.split(":")
+                sns = [] if lst == "-" else [int(x) for x in lst.split(".")]
+                prev = cache_prev.get((name, wid), [])
+                wn = next(x for x, wr in w.writers.items() if str(wr["wid"]) == wid)
+                m = w.sample_of_sn(wn)
+                got += [m.get(sn, f"?{sn}") for sn in sns[len(prev):]]
+                cache_prev[(name, wid)] = sns
+            pred[i] = ("take", sorted(got))
     for key, wt in waits.items():
         if pred.get(wt["i"]) is None:
             pred[wt["i"]] = ("pending", wt["t0"] + wt["n"])
@@ -342,11 +365,12 @@ def observed(w, case, out):
                 if rec["fate"] in ("reordered-after-next",):
                     continue
                 for kind, f in rec["subs"]:
-                    if kind == "ACKNACK" and f.get("w") == WENT:
+                    if kind == "ACKNACK":
                         n = by_key.get((rec["from"], f["r"]))
-                        if n is not None and (rec["fate"] != "DUPLICATE"):
+                        wr = next((x for x in w.writers.values() if user_port(x["idx"]) in rec["to"] and x["ent"] == f.get("w")), None)
+                        if n is not None and wr is not None and (rec["fate"] != "DUPLICATE"):
                             s = ",".join(str(x) for x in f.get("set", [])) or "-"
-                            acks.setdefault(n, []).append(f"an:{f['base']}:{s}:{f['count']}")
+                            acks.setdefault(n, []).append(f"{wr['wid']}|an:{f['base']}:{s}:{f['count']}")
     return obs, acks
 
 
@@ -708,26 +732,41 @@ def c04_nontrivial(case, out):
     return late and (fault or vol)
 
 
+def _depth(q):
+    h = q.get("history", "keep_last:1")
+    return None if h == "keep_all" else int(h.split(":")[1])
+
+
 def c04_oracle(case, out):
+    """any number of writers (each TRANSIENT_LOCAL or VOLATILE) and readers; per (writer, reader) pair the match instant is the
+    creation of the later of the two; `before` = that writer's accepted writes before the match"""
     w = World(case, out)
     if w.broken:
         i, l, o = w.broken
         return [{"what": f"op {i} `{l}` answered {o}", "cause": "panic-or-hang"}]
     viol = []
-    wq = w.wq or {}
-    wtl = wq.get("durability") == "transient_local"
-    h = wq.get("history", "keep_last:1")
-    depth = None if h == "keep_all" else int(h.split(":")[1])
     sibl = w.siblings()
     got = {n: [] for n in w.readers}
-    wrote = []
     healed = False
     pending_hist = []
+
+    def pairs(r, upto=None):
+        """[(writer name, tl pair?, before, after)] of the writers matched with reader r (created before op `upto`)"""
+        res = []
+        for wn, wr in w.writers.items():
+            if upto is not None and wr["created_at"] > upto:
+                continue
+            wtl = wr["q"].get("durability") == "transient_local"
+            if r["tl"] and not wtl:
+                continue                                    # incompatible: never matched
+            m = max(wr["created_at"], r["created_at"])
+            mine = [(wi, f"{k}:{v}") for (wi, k, v, ok, n2) in w.writes if ok and n2 == wn]
+            res.append((wn, r["tl"] and wtl, [d for (wi, d) in mine if wi < m], [d for (wi, d) in mine if wi > m], _depth(wr["q"])))
+        return res
+
     for k, st in enumerate(w.steps):
         t, o, i = st["t"], st["o"], st["i"]
-        if t[0] == "write" and o == "ok":
-            wrote.append((i, f"{t[2]}:{t[3]}"))
-        elif t[0] == "clear-faults":
+        if t[0] == "clear-faults":
             healed = True
         elif t[0] == "take" and o.startswith("ok"):
             got[t[1]] += [s["data"] for s in parse_samples(o) or []]
@@ -735,8 +774,18 @@ def c04_oracle(case, out):
             r = w.readers.get(t[1])
             if r is None:
                 continue
-            if r["tl"] and r["rel"] and wtl and o == "ok":
-                # soundness: at the instant of the answer the reader presents (has presented) the whole retained history
+            ps = pairs(r, upto=i)
+            if not r["tl"]:
+                if o != "err:IllegalOperation":
+                    viol.append({"what": f"op {i}: wait_for_historical_data on a VOLATILE reader answered {o}", "cause": "wait-hist-on-volatile"})
+                continue
+            if not ps:
+                if o != "ok":
+                    viol.append({"what": f"op {i} `{' '.join(t)}`: reader {t[1]} has no matched writer but the call answered {o} "
+                                         f"(nothing can ever arrive: it must complete at once)", "cause": "wait-hist-blocks-without-writer"})
+                continue
+            if r["rel"] and o == "ok":
+                # soundness: the reader presents the retained history of EVERY matched TRANSIENT_LOCAL writer at that instant
                 have = set(got[t[1]])
                 judged = False            # only when the reader is taken at the same instant (no op in between lets time pass)
                 for st2 in w.steps[k + 1:]:
@@ -746,54 +795,112 @@ def c04_oracle(case, out):
                             have |= {x["data"] for x in parse_samples(st2["o"]) or []}
                     elif st2["t"][0] not in ("now", "trace", "take"):
                         break
-                keep0 = set(retained([d for (wi, d) in wrote if wi < r["created_at"]], depth))
-                if judged and not keep0 <= have and r["part"] not in sibl:
-                    viol.append({"what": f"op {i} `{' '.join(t)}` answered ok but reader {t[1]} does not present {sorted(keep0 - have)} of the "
-                                         f"history retained at its match", "cause": "historical-data-announced-too-early"})
-            if not r["tl"]:
-                if o != "err:IllegalOperation":
-                    viol.append({"what": f"op {i}: wait_for_historical_data on a VOLATILE reader answered {o}", "cause": "wait-hist-on-volatile"})
-            elif r["rel"] and wtl and healed and not w.held and int(t[2]) >= SEC and o != "ok":
+                if judged and r["part"] not in sibl:
+                    for (wn, tlp, before, after, depth) in ps:
+                        keep0 = set(retained(before, depth)) if tlp else set()
+                        if not keep0 <= have:
+                            viol.append({"what": f"op {i} `{' '.join(t)}` answered ok but reader {t[1]} does not present {sorted(keep0 - have)} of "
+                                                 f"the history writer {wn} retained at the match ({len(ps)} matched writer(s))",
+                                         "cause": "historical-data-announced-too-early"})
+                            break
+            elif r["rel"] and healed and not w.held and int(t[2]) >= SEC and o != "ok":
                 pending_hist.append((i, t, o, r))
-    # a wait that is still pending after healing: has the reader everything the writer can still give it?
+    # a wait that is still pending after healing: has the reader everything the writers can still give it?
     for (i, t, o, r) in pending_hist:
         n = t[1]
-        before = [d for (wi, d) in wrote if wi < r["created_at"]]
-        need = set(retained(before, depth)) | {d for (wi, d) in wrote if wi > r["created_at"]}
+        need = set()
+        for (wn, tlp, before, after, depth) in pairs(r, upto=i):
+            need |= set(after) | (set(retained(before, depth)) if tlp else set())
         complete = need <= set(got[n])
         viol.append({"what": f"op {i} `{' '.join(t)}`: answered {o} {int(t[2]) // MS} ms after the network healed"
-                             + (" although the reader presents everything the writer holds: the writer is idle and never confirmed its history"
+                             + (" although the reader presents everything the writers hold: a writer is idle and never confirmed its history"
                                 if complete else ""),
                      "cause": "sibling-reader-applies-foreign-submessage" if r["part"] in sibl else
                               ("writer-idle-history-not-confirmed" if complete else "wait-hist-never-completes")})
     # final contents
     for n, r in w.readers.items():
-        before = [d for (wi, d) in wrote if wi < r["created_at"]]
-        after = [d for (wi, d) in wrote if wi > r["created_at"]]
+        ps = pairs(r)
         have = got[n]
         sib = r["part"] in sibl
         if len(set(have)) != len(have):
             viol.append({"what": f"reader {n} presents a sample twice: {have}", "cause": "duplicate"})
-        keep = retained(before, depth)
-        allowed = set(after) | (set(keep) if (r["tl"] and wtl) else set())
+        allowed, need, olds, keeps = set(), set(), set(), []
+        for (wn, tlp, before, after, depth) in ps:
+            keep = retained(before, depth)
+            keeps += keep
+            allowed |= set(after) | (set(keep) if tlp else set())
+            olds |= set(before) if not tlp else set()
+        need = set(allowed)
         extra = [d for d in have if d not in allowed]
         if extra:
-            old = [d for d in extra if d in before]
-            if old and not (r["tl"] and wtl):
+            old = [d for d in extra if d in olds]
+            if old:
                 viol.append({"what": f"VOLATILE reader {n} (created at op {r['created_at']}) presents {old}, written before it was matched",
                              "cause": "sibling-reader-applies-foreign-submessage" if sib else "old-sample-to-volatile"})
             else:
-                viol.append({"what": f"reader {n} presents {extra}: not in the writer's retained history {keep} nor written after the match",
+                viol.append({"what": f"reader {n} presents {extra}: not in the retained history {keeps} of its writers nor written after the match",
                              "cause": "sibling-reader-applies-foreign-submessage" if sib else "not-retained-sample-delivered"})
         if r["rel"] and healed and not w.held:
-            need = set(after) | (set(keep) if (r["tl"] and wtl) else set())
             miss = sorted(need - set(have))
             took = any(st["t"][0] == "take" and st["t"][1] == n for st in w.steps)
             if miss and took:
                 viol.append({"what": f"reliable {'TRANSIENT_LOCAL' if r['tl'] else 'VOLATILE'} reader {n} never presents {miss} "
-                                     f"(retained history at match: {keep}, written later: {after}) although the network healed",
+                                     f"(retained history at match: {keeps}) although the network healed",
                              "cause": "sibling-reader-applies-foreign-submessage" if sib else "history-not-delivered"})
     return viol
+
+
+def gen_c04_two_writers(r, long=False):
+    """ONE reliable TRANSIENT_LOCAL reader, TWO TRANSIENT_LOCAL writers in their own participants (sometimes the reader exists
+    first and has no matched writer at all); the catch-up from one writer is lost / held while the other one completes;
+    `wait-hist` with a bound and a `take` at the same instant; heal; final `wait-hist` + `take`."""
+    L = ["participant P1", "participant P2", "participant P3", "topic t1 P1 T ki", "topic t2 P2 T ki", "topic t3 P3 T ki",
+         "publisher pub P1", "subscriber sub2 P2", "publisher pub3 P3", "trace on"]
+    rq = "reliability=reliable history=keep_all durability=transient_local"
+    def wq():
+        d = r.choice(["keep_all", "keep_last:1", "keep_last:2"])
+        return f"reliability=reliable history={d} durability=transient_local"
+    vals = 0
+    def writes(wn, base, n):
+        nonlocal vals
+        for _ in range(n):
+            vals += 1
+            obs(L, f"write {wn} {base + r.range(1, 2)} {vals}")
+    reader_first = r.chance(1, 4)
+    if reader_first:
+        obs(L, f"reader r2 sub2 t2 {rq}")
+        L.append("now"); obs(L, f"wait-hist r2 {r.choice([1000, 250 * MS])}"); L.append("now"); L.append("take r2")
+    obs(L, f"writer w pub t1 {wq()}")
+    writes("w", 0, r.range(1, 4))
+    second_late = r.chance(1, 3)             # the second writer appears after the reader
+    if not second_late:
+        obs(L, f"writer w2 pub3 t3 {wq()}")
+        writes("w2", 20, r.range(1, 4))
+    victim = r.choice(["P1", "P3"])
+    fault = r.choice([f"drop-if DATA user from={victim} times={r.range(2, 6)}", f"hold DATA user from={victim}",
+                      f"drop-if HEARTBEAT user from={victim} times={r.range(1, 3)}", f"drop-next {r.range(1, 3)} DATA user from={victim}",
+                      f"hold user from={victim}"])
+    L.append(fault)
+    if not reader_first:
+        obs(L, f"reader r2 sub2 t2 {rq}")
+    if second_late:
+        obs(L, f"writer w2 pub3 t3 {wq()}")
+        writes("w2", 20, r.range(1, 3))
+    if reader_first:
+        writes("w", 10, r.range(0, 1))
+    for _ in range(r.range(1, 3)):
+        L.append("now"); obs(L, f"wait-hist r2 {r.choice([1000, 150 * MS, 450 * MS, 650 * MS])}"); L.append("now")
+        L.append("take r2")
+        if r.chance(1, 2):
+            obs(L, f"advance {r.choice([50 * MS, 250 * MS])}")
+        if r.chance(1, 3):
+            L.append("now"); obs(L, "release")
+    L += ["clear-faults", "now"]
+    obs(L, "release")
+    obs(L, f"advance {SEC}")
+    L.append("now"); obs(L, f"wait-hist r2 {SEC + 50 * MS}"); L.append("now")
+    L.append("take r2")
+    return Case(L, {"kind": "c04-two-writers"})
 
 
 # ----------------------------------------------------------------------------- part 1: protocol level, engine `rtps`
@@ -878,6 +985,10 @@ def protocol_oracle(case, out, want):
             nt.op(t, st)
             cache = st["cache"]
             continue
+        if want == "hist" and t[0] == "histrecv" and not tr.matched and tr.rel is not None and o == "false":
+            viol.append({"what": f"op {i}: is_historical_data_received is false on a reader without any matched writer", "at": i,
+                         "cause": "wait-hist-blocks-without-writer"})
+            break
         if not (tr.rel and tr.matched) or tr.rematch:
             continue
         have = {sn for sn, _ in cache}
